@@ -343,8 +343,9 @@ def limit_leg(ctx: Ctx, wd) -> None:
     finally:
         ra.close()
     ctx.extra["limit_leg"] = {"max_allocs": real_max, "fill_allocations": len(fill), "tail_events": len(tail)}
-    full_trace = {"init": [], "evs": fill + tail}
-    acc = validate_traces(ctx, wd, [full_trace], dunits * UNIT, real_max, "limit")
+    # ShmAllocTrace starts from the real table reached by the fill phase (replaying 4093 fill steps inside TLC costs
+    # ~20 min; the fill phase is covered by the table clauses on that table and by the first checked event)
+    acc = validate_traces(ctx, wd, [judged], dunits * UNIT, real_max, "limit")
     bad = judge_traces(ctx, [judged], [False] if not acc[0] else [True], dunits * UNIT, real_max)
     settle(ctx, "limit", [judged], acc, bad, {"D": dunits * UNIT, "max_allocs": real_max})
 
